@@ -30,5 +30,6 @@ PY
     timeout 120 $B < /tmp/$TAG-demo.ndjson 2>&1 | cut -c1-3000 >> work/$TAG-$ID.demo.txt
   done
 done
-git -C /tmp/wt-$TAG checkout -q -- . ; git -C /tmp/wt-$TAG clean -fdq
+# the patch stays applied in /tmp/wt-$TAG (seedtest.sh resets the worktree when it starts): a later run with
+# VERIF_HARNESS_DIR=/tmp/mirror-$TAG still builds the changed tree
 echo "demo: work/$TAG-$ID.demo.txt"
